@@ -30,7 +30,18 @@ func VerifC02Embedded() {
 	w.Routes[jtp.VHostB+"/alice"] = c09Doc(`{"type":"Person","id":"` + c02V + `/alice","name":"alice"}`)
 	mallory := c02E + "/mallory"
 	var entry string
-	switch verifrt.Choice("shape", 7) {
+	shape := verifrt.Choice("shape", 8)
+	if shape == 7 {
+		// V's own actor: its outbox (id on V) continues on a page served by E, which
+		// has no id of its own and embeds a forged copy of V's note in an activity by alice
+		w.Routes[jtp.VHostB+"/alice"] = c09Doc(`{"type":"Person","id":"` + c02V + `/alice","name":"alice","outbox":{"type":"OrderedCollection","id":"` + c02V + `/outbox","totalItems":1,"first":"` + c02E + `/page"}}`)
+		w.Routes[jtp.VHostA+"/page"] = c09Doc(`{"type":"OrderedCollectionPage","orderedItems":[{"type":"Create","actor":"` + c02V + `/alice","object":` + c02ForgedNote(true) + `}]}`)
+		jtp.VerifUseWorld(w, 16)
+		c02CheckActor(c02V + "/alice")
+		verifrt.Reach("end")
+		return
+	}
+	switch shape {
 	case 0: // inline Create claiming V's id, wrapping a forged copy of V's note
 		entry = `{"type":"Create","id":"` + c02V + `/create","actor":"` + mallory + `","object":` + c02ForgedNote(true) + `}`
 	case 1: // the same without an id on the Create
@@ -48,8 +59,12 @@ func VerifC02Embedded() {
 	}
 	w.Routes[jtp.VHostA+"/mallory"] = c09Doc(`{"type":"Person","id":"` + mallory + `","name":"mallory","outbox":{"type":"OrderedCollection","orderedItems":[` + entry + `]}}`)
 	jtp.VerifUseWorld(w, 16)
+	c02CheckActor(mallory)
+	verifrt.Reach("end")
+}
 
-	item := New(mallory, nil)
+func c02CheckActor(url string) {
+	item := New(url, nil)
 	actor, ok := item.(*Actor)
 	verifrt.Assert(ok && actor.Children() != nil, "actor-loads")
 	if !ok || actor.Children() == nil {
@@ -80,5 +95,4 @@ func VerifC02Embedded() {
 		check(it, 1)
 	}
 	verifrt.Observe("checked", checked)
-	verifrt.Reach("end")
 }
